@@ -266,6 +266,8 @@ class ConstEval:
             raise _Continue()
         if isinstance(s, (ast.FunctionDef, ast.AsyncFunctionDef)):
             env[s.name] = FuncRef(mod, s)
+            if getattr(self, "_depth_marker", None) is None and env is not self._modenv.get(mod):
+                env[s.name].env = env  # a function defined inside a function: closure over the defining scope
             return
         if isinstance(s, ast.ClassDef):
             env[s.name] = Opaque(f"class {mod}.{s.name}", s, mod)
@@ -449,7 +451,9 @@ class ConstEval:
         if isinstance(e, ast.Call):
             return self.call(e, env, mod)
         if isinstance(e, ast.Lambda):
-            return Opaque("lambda", e, mod)
+            o = Opaque("lambda", e, mod)
+            o.env = env  # closure: the defining scope (by reference, like Python)
+            return o
         raise NotConstant(f"expression {type(e).__name__}")
 
     def comprehension(self, e, env, mod):
@@ -566,7 +570,11 @@ class ConstEval:
             return self.call_func(f, args)
         if isinstance(f, Opaque) and f.what == "lambda":
             params = [a.arg for a in f.node.args.args]
-            return self.eval(f.node.body, dict(zip(params, args)), f.mod or mod)
+            loc = dict(getattr(f, "env", None) or {})
+            loc.update(zip(params, args))
+            return self.eval(f.node.body, loc, f.mod or mod)
+        if isinstance(f, tuple) and len(f) == 3 and f[0] == "partial":
+            return self.apply_callable(f[1], list(f[2]) + list(args), mod)
         if callable(f) and f in SAFE_BUILTINS.values():
             return f(*args)
         raise NotConstant(f"call of {f!r}")
@@ -589,7 +597,7 @@ class ConstEval:
         node = f.node
         a = node.args
         params = [x.arg for x in a.posonlyargs + a.args]
-        loc = {}
+        loc = dict(getattr(f, "env", None) or {})
         defaults = a.defaults
         for i, p in enumerate(params):
             if i < len(args):
